@@ -111,6 +111,19 @@ func c02Gen(c *vfCtx, emit func(c02Case)) {
 			pairs("yaml", ydocs[:8], color, mode)
 		}
 	}
+	// values larger than reader/writer buffers, differing in the last byte or in one late line
+	for _, b := range vfBigValues() {
+		for _, api := range []string{"snap", "ssnap", "yaml"} {
+			v := b
+			if api == "yaml" {
+				v = "k: |\n  " + strings.ReplaceAll(strings.ReplaceAll(b, "---", "- -"), "\n", "\n  ") + "\n"
+			}
+			for _, color := range []bool{false, true} {
+				emit(c02Case{API: api, S: v, R: v[:len(v)-2] + "Z" + v[len(v)-1:], Color: color, Mode: "unset"})
+				emit(c02Case{API: api, S: v[:len(v)-2] + "Z" + v[len(v)-1:], R: v, Color: color, Mode: "unset"})
+			}
+		}
+	}
 	// long texts (hunk headers, popular-line heuristic of the line differ)
 	for _, pr := range vfLongTexts(c.thorough()) {
 		for _, color := range []bool{false, true} {
